@@ -926,6 +926,35 @@ impl crate::annotations::WithName for BatchSemaphore {
     }
 }
 
+#[cfg(feature = "verif")]
+impl BatchSemaphore {
+    /// Read-only snapshot of the semaphore's internal state for external monitors.
+    pub fn verif_snapshot(&self) -> crate::verif::SemaphoreView {
+        let state = self.state.borrow();
+        crate::verif::SemaphoreView {
+            available: state.permits_available.num_available,
+            permit_batches_sum: state
+                .permits_available
+                .permit_clocks
+                .as_ref()
+                .map(|q| q.iter().map(|(n, _)| *n).sum()),
+            closed: state.closed,
+            waiters: state
+                .waiters
+                .iter()
+                .map(|w| {
+                    (
+                        w.task_id(),
+                        w.num_permits,
+                        w.is_queued.load(Ordering::SeqCst),
+                        w.has_permits.load(Ordering::SeqCst),
+                    )
+                })
+                .collect(),
+        }
+    }
+}
+
 impl BatchSemaphore {
     /// Returns a reference to this semaphore's resource signature.
     pub fn signature(&self) -> &ResourceSignature {
